@@ -8,7 +8,7 @@ from .common import run_control, generic_rules
 
 def analyse(ctx: CheckContext, p: Program):
     r = Resolver(p)
-    ctx.guard(generic_rules, ctx, p, r, "C13")
+    ctx.guard(generic_rules, ctx, p, r, "C13", ("OpenPinch/main.py",))
     ctx.guard(tables.check_graph_tables, ctx, p, r)
     ctx.guard(tables.check_traversal, ctx, p, r)
 
@@ -25,6 +25,10 @@ def run(ctx: CheckContext):
     ]
     g = "OpenPinch/analysis/graph_data.py"
     d = "OpenPinch/analysis/direct_integration_entry.py"
+    run_control(ctx, "C13/graph-payload-parked-on-the-zone", analyse, p.root, "OpenPinch/main.py",
+                '    """Serializes results data into a dictionaty from options."""\n    return {\n',
+                '    """Serializes results data into a dictionaty from options."""\n    if not master_zone.graphs:\n        master_zone.graphs = get_output_graph_data(master_zone)\n    return {\n',
+                "MEMO-PARAM")
     run_control(ctx, "C13/column-not-sliced", analyse, p.root, d,
                 "GT.GCC.value: pt[[PT.T.value, PT.H_NET.value, PT.H_NET_NP.value, PT.H_NET_V.value, PT.H_NET_A.value, PT.H_NET_UT.value]]",
                 "GT.GCC.value: pt[[PT.T.value, PT.H_NET.value, PT.H_NET_NP.value, PT.H_NET_A.value, PT.H_NET_UT.value]]", "T3")
